@@ -7,6 +7,9 @@ regenerated from the source on every run), and the copy-back is consistent for a
 -/
 import CBV.Model.C15
 import CBV.Lemmas.C15
+import CBV.Lemmas.C15Max
+import CBV.Lemmas.C15Graph
+import CBV.Lemmas.C15Lattice
 import Mathlib.Tactic.Ring
 import Mathlib.Tactic.Linarith
 import Mathlib.Tactic.FieldSimp
@@ -96,29 +99,34 @@ theorem T_C15_fixpoint_iter (g : Grid) (fixed : List Nat) (p : List V3) (k : Nat
 
 /-! ### a regular lattice with regular boundary is a fixed point -/
 
+/-- affine image `o + x·u + y·v + z·w` of lattice coordinates -/
+def affineImg (o u v w c : V3) : V3 := o + (V3.smul c.x u + V3.smul c.y v + V3.smul c.z w)
+
 /-
-Full statement (not proved for all sizes): for all nx ny ≥ 1, the structured quad map of nx × ny
-cells (and the nx × ny × nz hexahedral assembly) with the lattice coordinates of its points is
-`LatticeLike`, hence every affine image of the lattice is a fixed point of smoothing.
-Proved part: the implication below for *every* grid (`LatticeLike`, defined in `Lemmas/C15.lean`, is the
-Prop form of the model's decidable `latticeLikeB`), plus instances by kernel evaluation; the harness lets
-the model decide `latticeLikeB` for every regular grid it generates (request `c15.lattice`).
+Full statement for hexahedral assemblies (not proved for all sizes): the nx × ny × nz assembly with the
+lattice coordinates of its points is `LatticeLike`.  Proved: the implication below for *every* grid and
+labelling, the hypothesis for the structured quad map of **every** size (`T_C15_lattice_quads`), and
+instances by kernel evaluation; the harness lets the model decide `latticeLikeB` for every regular grid
+(quad and hex) it generates (request `c15.lattice`).
 -/
-/-- If the junction coordinates are lattice-like, every affine image `o + x·u + y·v + z·w` of the
-    coordinates is left unchanged by smoothing, for any number of iterations. -/
+/-- If the junction coordinates are lattice-like, every position list that is an affine image
+    `o + x·u + y·v + z·w` of the coordinates on the junctions of the grid is left unchanged by smoothing,
+    for any number of iterations. -/
 theorem T_C15_lattice_partial (g : Grid) (fixed : List Nat) (coord : Nat → V3) (o u v w : V3) (p : List V3)
     (hl : LatticeLike g fixed coord)
-    (hp : ∀ n, pget p n = o + (V3.smul (coord n).x u + V3.smul (coord n).y v + V3.smul (coord n).z w))
+    (hp : ∀ n, n < g.n → pget p n = affineImg o u v w (coord n))
     (k : Nat) : smooth g fixed k p = p := by
   apply T_C15_fixpoint_iter
   rw [T_C15_fixpoint]
   intro j hj hb hf _
   obtain ⟨hne, hs⟩ := hl j ((mem_inner g j).mpr ⟨hj, hb⟩) hf
-  have hfun : (pget p) = fun n => o + (V3.smul (coord n).x u + V3.smul (coord n).y v + V3.smul (coord n).z w) :=
-    funext hp
-  rw [hfun]
-  simp only []
-  unfold avg
+  have hmap : (junctionNbrs g j).map (pget p) =
+      (junctionNbrs g j).map (fun n => o + (V3.smul (coord n).x u + V3.smul (coord n).y v + V3.smul (coord n).z w)) := by
+    apply List.map_congr_left
+    intro t ht
+    exact hp t ((mem_junctionNbrs g j t).mp ht).1
+  rw [hmap, hp j hj]
+  unfold avg affineImg
   rw [vsum_map_affine, hs, List.length_map]
   have hlen : ((junctionNbrs g j).length : Rat) ≠ 0 := by
     have : (junctionNbrs g j).length ≠ 0 := by
@@ -132,6 +140,43 @@ example : LatticeLike (structQuads 3 3) [] (quadCoord 3) ∧ inner (structQuads 
 
 example : LatticeLike (structQuads 4 2) [6] (quadCoord 4) ∧ inner (structQuads 4 2) = [6, 7, 8] :=
   ⟨latticeLike_of_B _ _ _ (by decide +kernel), by decide +kernel⟩
+
+/-- the regular lattice: point `q` of the structured `nx × ny` map at `o + (q mod (nx+1))·u + (q div (nx+1))·v` -/
+def latticePts (nx ny : Nat) (o u v : V3) : List V3 :=
+  (List.range ((nx + 1) * (ny + 1))).map (fun q => affineImg o u v V3.zero (quadCoord nx q))
+
+theorem pget_latticePts (nx ny : Nat) (o u v : V3) (q : Nat) (h : q < (nx + 1) * (ny + 1)) :
+    pget (latticePts nx ny o u v) q = affineImg o u v V3.zero (quadCoord nx q) := by
+  unfold latticePts pget
+  simp [List.getD_eq_getElem?_getD, List.getElem?_map, List.getElem?_range h]
+
+/-- **Regular boundary ⇒ regular lattice, every size**: for all `nx, ny ≥ 1` (cells per direction), every
+    fixed set, every origin `o` and edge vectors `u, v` (any affine image of the integer lattice — skewed,
+    stretched, rotated in space) and every number of iterations, the regular lattice of the structured
+    `nx × ny` quad map is left exactly unchanged by the smoothing of the model. -/
+theorem T_C15_lattice_quads (nx ny : Nat) (h1 : 1 ≤ nx) (h2 : 1 ≤ ny) (fixed : List Nat) (o u v : V3) (k : Nat) :
+    smooth (structQuads nx ny) fixed k (latticePts nx ny o u v) = latticePts nx ny o u v :=
+  T_C15_lattice_partial (structQuads nx ny) fixed (quadCoord nx) o u v V3.zero _
+    (structQuads_latticeLike nx ny h1 h2 fixed) (fun q hq => pget_latticePts nx ny o u v q hq) k
+
+/-- the topology behind it, for all sizes: rim points of the lattice are boundary junctions, inner junctions
+    are lattice-interior, and a lattice-interior point has exactly its four lattice neighbours -/
+theorem T_C15_lattice_topology (nx ny : Nat) (h1 : 1 ≤ nx) (h2 : 1 ≤ ny) :
+    (∀ x y, x ≤ nx → y ≤ ny → (x = 0 ∨ x = nx ∨ y = 0 ∨ y = ny) →
+      isBoundary (structQuads nx ny) (y * (nx + 1) + x) = true) ∧
+    (∀ q ∈ inner (structQuads nx ny), ∃ x y, q = (y + 1) * (nx + 1) + (x + 1) ∧ x + 2 ≤ nx ∧ y + 2 ≤ ny) ∧
+    (∀ x y, x + 2 ≤ nx → y + 2 ≤ ny →
+      junctionNbrs (structQuads nx ny) ((y + 1) * (nx + 1) + (x + 1)) =
+        [y * (nx + 1) + (x + 1), (y + 1) * (nx + 1) + x, (y + 1) * (nx + 1) + (x + 2),
+         (y + 2) * (nx + 1) + (x + 1)]) :=
+  ⟨fun x y hx hy hb => border_isBoundary nx ny x y h1 h2 hx hy hb,
+   fun q hq => inner_interior nx ny q h1 h2 hq,
+   fun x y hx hy => interior_nbrs nx ny x y hx hy⟩
+
+/-- non-vacuity (a skewed 3×2 lattice in space, one sweep evaluated by the kernel; its inner junctions are 5 and 6) -/
+example : inner (structQuads 3 2) = [5, 6] ∧
+    smooth (structQuads 3 2) [] 1 (latticePts 3 2 ⟨1, 2, 3⟩ ⟨2, 1/2, 0⟩ ⟨-1/3, 1, 1⟩)
+      = latticePts 3 2 ⟨1, 2, 3⟩ ⟨2, 1/2, 0⟩ ⟨-1/3, 1, 1⟩ := by decide +kernel
 
 /-! ### neighbours are the cell edges, never a diagonal -/
 
@@ -374,5 +419,349 @@ theorem T_C15_sketch_frame (quads : List (List Nat)) (faces : List (List V3)) (n
   rw [T_C15_backport, hi]
   simp only [Option.map_some]
   rw [(T_C15_frame ⟨quadKind, quads, n⟩ fixed k _ i h).1]
+
+/-! ### the graph the model builds from a cell list (every cell list, either cell class) -/
+
+/-- **Boundary = points on a cell side without a neighbour.**  For every cell list: junction `j` is a boundary
+    junction iff some cell `ci` that contains it has a side `s` with `j` at one of its corners such that no *other*
+    cell of the list shares exactly that side with `ci` (`get_common_side` never answers `s`). -/
+theorem T_C15_boundary (g : Grid) (j : Nat) :
+    isBoundary g j = true ↔
+      ∃ (ci : Nat) (cell : List Nat) (s : Nat) (side : List Nat),
+        g.cells[ci]? = some cell ∧ j ∈ cell ∧ g.kind.sideIdx[s]? = some side ∧
+        (∃ u ∈ side, cell.getD u 0 = j) ∧
+        ∀ cj, cj < g.cells.length → cj ≠ ci → commonSide g.kind cell (g.cells.getD cj []) ≠ some s := by
+  rw [isBoundary_iff]
+  constructor
+  · rintro ⟨ci, cell, hci, hj, hb⟩
+    obtain ⟨s, side, hside, hn, u, hu, hq⟩ := (mem_cellBoundary g ci j).mp hb
+    have hcell : g.cells.getD ci [] = cell := getD_of_getElem? _ ci _ hci
+    rw [hcell] at hq
+    refine ⟨ci, cell, s, side, hci, hj, hside, ⟨u, hu, hq⟩, ?_⟩
+    have := ((cellNbrs_none_iff g ci s).mp hn).2
+    rwa [hcell] at this
+  · rintro ⟨ci, cell, s, side, hci, hj, hside, ⟨u, hu, hq⟩, hno⟩
+    have hcell : g.cells.getD ci [] = cell := getD_of_getElem? _ ci _ hci
+    refine ⟨ci, cell, hci, hj, (mem_cellBoundary g ci j).mpr ⟨s, side, hside, ?_, u, hu, by rw [hcell]; exact hq⟩⟩
+    rw [cellNbrs_none_iff, hcell]
+    refine ⟨?_, hno⟩
+    by_contra hc
+    rw [List.getElem?_eq_none (Nat.le_of_not_lt hc)] at hside; simp at hside
+
+/-- **What a neighbouring cell is.**  The cell recorded on side `s` of cell `ci` is another cell of the list for
+    which `get_common_side` answers `s`; and whenever it answers `s` for two cells, they share as many points as a
+    side has corners, every corner of side `s` of the first holds a point of the second, and every shared point
+    sits at a corner of side `s` — for every cell class and any two cells. -/
+theorem T_C15_cell_neighbour (g : Grid) (ci s cj : Nat) (h : (cellNbrs g ci)[s]? = some (some cj)) :
+    cj < g.cells.length ∧ cj ≠ ci ∧
+    (common (g.cells.getD ci []) (g.cells.getD cj [])).length = (g.kind.sideIdx.headD []).length ∧
+    ∃ side, g.kind.sideIdx[s]? = some side ∧
+      (∀ u ∈ side, (g.cells.getD ci []).getD u 0 ∈ g.cells.getD cj []) ∧
+      (∀ x, x ∈ g.cells.getD ci [] → x ∈ g.cells.getD cj [] → ∃ u ∈ side, (g.cells.getD ci []).getD u 0 = x) := by
+  obtain ⟨h1, h2, h3⟩ := cellNbrs_some g ci s cj h
+  obtain ⟨h4, side, h5, h6, h7⟩ := commonSide_some _ _ _ _ h3
+  exact ⟨h1, h2, h4, side, h5, fun u hu => (h6 u hu).2, h7⟩
+
+/-- non-vacuity: in the 2×2 map, cell 0 has cell 1 on its side 1 ("right") and nothing on side 0 ("front");
+    point 1 is boundary through that side, point 4 is not boundary -/
+example :
+    cellNbrs (structQuads 2 2) 0 = [none, some 1, some 2, none] ∧
+    isBoundary (structQuads 2 2) 1 = true ∧ isBoundary (structQuads 2 2) 4 = false := by decide +kernel
+
+/-! ### convergence: Lyapunov quantity and uniqueness of the limit -/
+
+/-
+Full statement (not proved): for every anchored grid the positions after `k` sweeps converge to the fixed point
+as `k → ∞` (geometric rate depending on the graph).  Proved: the max-norm distance to a fixed point never
+increases from one sweep to the next (`T_C15_lyapunov`, `T_C15_lyapunov_mono`), the fixed point is unique
+(`T_C15_unique`), for the structured quad map of every size it is the regular lattice when the rim is regular
+(`T_C15_lattice_unique`).  The harness checks the numeric convergence on the implementation.
+-/
+/-- **Lyapunov quantity** (every graph, every fixed set, Gauss–Seidel order as the code performs it): if `q` is a
+    fixed point of the sweep and every free inner junction has a neighbour, the max-norm distance of the
+    positions to `q` does not increase by one more iteration. -/
+theorem T_C15_lyapunov (g : Grid) (fixed : List Nat) (q p : List V3) (k : Nat)
+    (hq : smooth g fixed 1 q = q) (hdef : defined g fixed = true) (hlen : p.length = q.length) :
+    linfDist (smooth g fixed (k + 1) p) q ≤ linfDist (smooth g fixed k p) q := by
+  unfold smooth at hq ⊢
+  simp only [iter] at hq
+  rw [iter_succ']
+  apply linfDist_sweep_le
+  · exact (sweep_eq_self_iff _ (inner_nodup g) _ _ _).mp hq
+  · intro j hj hf
+    unfold defined at hdef
+    have := List.all_eq_true.mp hdef j hj
+    simp only [Bool.or_eq_true, List.contains_iff_mem, hf, false_or, Bool.not_eq_true',
+      List.isEmpty_eq_false_iff] at this
+    exact this
+  · rw [iter_length _ (fun r => sweep_length _ _ _ r)]; exact hlen
+
+/-- … hence it never exceeds the initial distance, for every iteration count -/
+theorem T_C15_lyapunov_mono (g : Grid) (fixed : List Nat) (q p : List V3) (k : Nat)
+    (hq : smooth g fixed 1 q = q) (hdef : defined g fixed = true) (hlen : p.length = q.length) :
+    linfDist (smooth g fixed k p) q ≤ linfDist p q := by
+  induction k with
+  | zero => exact le_rfl
+  | succ k ih => exact (T_C15_lyapunov g fixed q p k hq hdef hlen).trans ih
+
+/-- non-vacuity: 2×2 map, `q` the regular lattice, the centre of `p` displaced: distance 1/4 before, 0 after one sweep -/
+example :
+    let g := structQuads 2 2
+    let q := latticePts 2 2 ⟨0, 0, 0⟩ ⟨1, 0, 0⟩ ⟨0, 1, 0⟩
+    let p := q.set 4 ⟨5/4, 3/4, 0⟩
+    smooth g [] 1 q = q ∧ defined g [] = true ∧ p.length = q.length ∧
+      linfDist p q = 1/4 ∧ linfDist (smooth g [] 1 p) q = 0 := by decide +kernel
+
+/-- **Uniqueness of the fixed point (discrete maximum principle)**, every graph: two position lists that are both
+    unchanged by a sweep and agree on all boundary and fixed junctions are equal, as soon as every free inner
+    junction is linked to a boundary or fixed junction along neighbour links. -/
+theorem T_C15_unique (g : Grid) (fixed : List Nat) (p q : List V3)
+    (hp : p.length = g.n) (hq : q.length = g.n)
+    (fp : smooth g fixed 1 p = p) (fq : smooth g fixed 1 q = q)
+    (hb : ∀ i, isBoundary g i = true ∨ i ∈ fixed → pget p i = pget q i)
+    (hr : ∀ j ∈ inner g, j ∉ fixed → Reach (junctionNbrs g) (fun j => j ∈ inner g ∧ j ∉ fixed) j) :
+    p = q := by
+  have hfp := (T_C15_fixpoint g fixed p).mp fp
+  have hfq := (T_C15_fixpoint g fixed q).mp fq
+  have hnf : ∀ i, ¬ (i ∈ inner g ∧ i ∉ fixed) → pget p i = pget q i := by
+    intro i hi
+    by_cases hlt : i < g.n
+    · apply hb
+      by_cases hfx : i ∈ fixed
+      · exact Or.inr hfx
+      · left
+        by_contra hbd
+        exact hi ⟨(mem_inner g i).mpr ⟨hlt, by simpa using hbd⟩, hfx⟩
+    · rw [pget_of_le p i (by omega), pget_of_le q i (by omega)]
+  have hc : ∀ {c : V3 → Rat}, IsLin c → ∀ i, c (pget p i) - c (pget q i) = 0 := by
+    intro c hc
+    apply harmonic_zero (junctionNbrs g) (fun j => j ∈ inner g ∧ j ∉ fixed) g.n
+    · intro j hj; exact ((mem_inner g j).mp hj.1).1
+    · intro i hi; rw [hnf i hi]; ring
+    · intro j hj
+      obtain ⟨hlt, hbd⟩ := (mem_inner g j).mp hj.1
+      rw [hfp j hlt hbd hj.2 (by omega), hfq j hlt hbd hj.2 (by omega), avg_diff hc]
+    · intro j hj; exact hr j hj.1 hj.2
+  apply List.ext_getElem (by omega)
+  intro i h1 h2
+  have e : pget p i = pget q i := by
+    apply V3.ext'
+    · have := hc isLin_x i; linarith
+    · have := hc isLin_y i; linarith
+    · have := hc isLin_z i; linarith
+  simpa [pget, List.getD_eq_getElem?_getD, h1, h2] using e
+
+/-- the hypothesis of `T_C15_unique` is decided by the model per grid (`anchoredB`, request `c15.anchored`) -/
+theorem T_C15_unique_anchored (g : Grid) (fixed : List Nat) (p q : List V3)
+    (hp : p.length = g.n) (hq : q.length = g.n)
+    (fp : smooth g fixed 1 p = p) (fq : smooth g fixed 1 q = q)
+    (hb : ∀ i, isBoundary g i = true ∨ i ∈ fixed → pget p i = pget q i)
+    (ha : anchoredB g fixed = true) : p = q :=
+  T_C15_unique g fixed p q hp hq fp fq hb (reach_of_anchoredB g fixed ha)
+
+/-- non-vacuity: the L-shaped unstructured map of three faces plus a 2×2 block is anchored; an orphan point is not -/
+example : anchoredB (structQuads 3 3) [] = true ∧ anchoredB (structQuads 3 3) [5] = true ∧
+    anchoredB ⟨quadKind, [[0, 1, 4, 3], [1, 2, 5, 4], [3, 4, 7, 6], [4, 5, 8, 7]], 10⟩ [] = false := by
+  decide +kernel
+
+/-- **The regular lattice is the only fixed point with a regular rim**, every size: in the structured `nx × ny` map
+    (any fixed set whose points sit at their lattice places), a position list that a sweep leaves unchanged and
+    that carries the affine lattice `o + x·u + y·v` on all boundary and fixed junctions *is* that lattice. -/
+theorem T_C15_lattice_unique (nx ny : Nat) (h1 : 1 ≤ nx) (h2 : 1 ≤ ny) (fixed : List Nat) (o u v : V3)
+    (p : List V3) (hp : p.length = (nx + 1) * (ny + 1))
+    (fp : smooth (structQuads nx ny) fixed 1 p = p)
+    (hb : ∀ i, isBoundary (structQuads nx ny) i = true ∨ i ∈ fixed →
+      pget p i = pget (latticePts nx ny o u v) i) :
+    p = latticePts nx ny o u v :=
+  T_C15_unique (structQuads nx ny) fixed p (latticePts nx ny o u v) hp (by simp [latticePts]; rfl) fp
+    (T_C15_lattice_quads nx ny h1 h2 fixed o u v 1) hb
+    (fun j _ _ => structQuads_reach nx ny h1 h2 fixed j)
+
+/-- the limit of smoothing, if it is reached: whenever `k` iterations on the structured map with a regular rim
+    arrive at a state that one more sweep does not change, that state is the regular lattice — whatever the
+    interior points were at the start -/
+theorem T_C15_lattice_limit (nx ny : Nat) (h1 : 1 ≤ nx) (h2 : 1 ≤ ny) (fixed : List Nat) (o u v : V3)
+    (p : List V3) (k : Nat) (hp : p.length = (nx + 1) * (ny + 1))
+    (hb : ∀ i, isBoundary (structQuads nx ny) i = true ∨ i ∈ fixed →
+      pget p i = pget (latticePts nx ny o u v) i)
+    (hstop : smooth (structQuads nx ny) fixed 1 (smooth (structQuads nx ny) fixed k p)
+      = smooth (structQuads nx ny) fixed k p) :
+    smooth (structQuads nx ny) fixed k p = latticePts nx ny o u v := by
+  refine T_C15_lattice_unique nx ny h1 h2 fixed o u v _ ?len hstop ?hb
+  case len =>
+    unfold smooth
+    rw [iter_length _ (fun r => sweep_length _ _ _ r)]; exact hp
+  case hb =>
+    intro i hi
+    rw [(T_C15_frame _ fixed k p i (by rcases hi with h | h; exact Or.inl h; exact Or.inr (Or.inl h))).1]
+    exact hb i hi
+
+/-- non-vacuity of `T_C15_lattice_limit`: 2×2 map, centre displaced, the state after one sweep is not changed by
+    another one (and is the lattice) -/
+example :
+    let g := structQuads 2 2
+    let q := latticePts 2 2 ⟨0, 0, 0⟩ ⟨1, 0, 0⟩ ⟨0, 1, 0⟩
+    let p := q.set 4 ⟨5/4, 3/4, 0⟩
+    smooth g [] 1 (smooth g [] 1 p) = smooth g [] 1 p ∧ p ≠ q ∧ smooth g [] 1 p = q := by decide +kernel
+
+/-! ### tie to the source text: what the model transcribes literally -/
+
+/-- The statement skeletons of every method on the execution path of `SmootherBase.smooth`, regenerated from the
+    *current* source with `ast` on every run (`cbv/tables/c15.py`: one string per statement, `depth:text`, locals
+    renamed a0, a1, …), are the ones the model was transcribed from: the two nested loops of `smooth` with the
+    `continue` on fixed junctions, the neighbour positions read through `Junction.point` (a view of the shared
+    array: **in place**, Gauss–Seidel), the write to `self.grid.points[index]`, `backport` after the loops; the
+    inner junctions in index order; `fix_indexes` / `fix_points` adding to the set (`< TOL`); the guards and the order
+    of `get_common_side`, `add_neighbour` (cell and junction), `boundary`, `is_boundary`; the order of the binding
+    passes.  A change of any of these breaks this proof obligation. -/
+theorem T_C15_source_skeleton :
+    CBV.Gen.c15SrcSmooth =
+      ["def smooth(self, a0)",
+       "0:for _ in range(a0)",
+       "1:for a1 in self.inner",
+       "2:if a1.index in self.fixed",
+       "3:continue",
+       "2:a2 = [a3.point for a3 in a1.neighbours]",
+       "2:self.grid.points[a1.index] = np.average(a2, axis=0)",
+       "0:self.backport()"] ∧
+    CBV.Gen.c15SrcSmootherInit =
+      ["def __init__(self, a0)",
+       "0:self.grid = a0",
+       "0:self.inner = []",
+       "0:for a1 in self.grid.junctions",
+       "1:if not a1.is_boundary",
+       "2:self.inner.append(a1)",
+       "0:self.fixed = set()"] ∧
+    CBV.Gen.c15SrcFixIndexes =
+      ["def fix_indexes(self, a0)",
+       "0:self.fixed.update(set(a0))"] ∧
+    CBV.Gen.c15SrcFixPoints =
+      ["def fix_points(self, a0)",
+       "0:for a1 in a0",
+       "1:for a2 in self.grid.junctions",
+       "2:if f.norm(a1 - a2.point) < TOL",
+       "3:self.fixed.add(a2.index)"] ∧
+    CBV.Gen.c15SrcBackportMesh =
+      ["def backport(self)",
+       "0:for (a0, a1) in enumerate(self.grid.points)",
+       "1:self.mesh.vertices[a0].move_to(a1)"] ∧
+    CBV.Gen.c15SrcBackportSketch =
+      ["def backport(self)",
+       "0:a0 = self.grid.points",
+       "0:for (a1, a2) in enumerate(self.sketch.indexes)",
+       "1:a3 = np.take(a0, a2, axis=0)",
+       "1:self.sketch.faces[a1].update(a3)"] ∧
+    CBV.Gen.c15SrcJunctionPoint =
+      ["def point(self)",
+       "0:return self.points[self.index]"] ∧
+    CBV.Gen.c15SrcJunctionAddCell =
+      ["def add_cell(self, a0)",
+       "0:for a1 in a0.indexes",
+       "1:if a1 == self.index",
+       "2:self.cells.add(a0)",
+       "2:return"] ∧
+    CBV.Gen.c15SrcJunctionAddNeighbour =
+      ["def add_neighbour(self, a0)",
+       "0:if a0 == self",
+       "1:return False",
+       "0:a1 = {self.index, a0.index}",
+       "0:for a2 in self.cells",
+       "1:for a3 in a2.connections",
+       "2:if a3.indexes == a1",
+       "3:if a0 not in self.neighbours",
+       "4:self.neighbours.append(a0)",
+       "4:return True",
+       "0:return False"] ∧
+    CBV.Gen.c15SrcJunctionIsBoundary =
+      ["def is_boundary(self)",
+       "0:for a0 in self.cells",
+       "1:if self.index in a0.boundary",
+       "2:return True",
+       "0:return False"] ∧
+    CBV.Gen.c15SrcCellInit =
+      ["def __init__(self, a0, a1)",
+       "0:self.grid_points = a0",
+       "0:self.indexes = a1",
+       "0:self.neighbours = {a2: None for a2 in self.side_names}",
+       "0:self.connections = [CellConnection(set(a3), {a1[a3[0]], a1[a3[1]]}) for a3 in self.edge_pairs]",
+       "0:self._quality = None"] ∧
+    CBV.Gen.c15SrcCellCommonIndexes =
+      ["def get_common_indexes(self, a0)",
+       "0:a1 = set(self.indexes)",
+       "0:a2 = set(a0.indexes)",
+       "0:return a1.intersection(a2)"] ∧
+    CBV.Gen.c15SrcCellCorner =
+      ["def get_corner(self, a0)",
+       "0:return self.indexes.index(a0)"] ∧
+    CBV.Gen.c15SrcCellCommonSide =
+      ["def get_common_side(self, a0)",
+       "0:a1 = self.get_common_indexes(a0)",
+       "0:if len(a1) != len(self.side_indexes[0])",
+       "1:raise NoCommonSidesError",
+       "0:a2 = {self.get_corner(a3) for a3 in a1}",
+       "0:for (a3, a4) in enumerate(self.side_indexes)",
+       "1:if set(a4) == a2",
+       "2:return self.side_names[a3]",
+       "0:raise NoCommonSidesError"] ∧
+    CBV.Gen.c15SrcCellAddNeighbour =
+      ["def add_neighbour(self, a0)",
+       "0:if a0 == self",
+       "1:return False",
+       "0:try",
+       "1:a1 = self.get_common_side(a0)",
+       "1:self.neighbours[a1] = a0",
+       "1:return True",
+       "0:except NoCommonSidesError",
+       "1:return False"] ∧
+    CBV.Gen.c15SrcCellBoundary =
+      ["def boundary(self)",
+       "0:a0 = set()",
+       "0:for (a1, a2) in enumerate(self.side_names)",
+       "1:a3 = self.side_indexes[a1]",
+       "1:if self.neighbours[a2] is None",
+       "2:a0.update({self.indexes[a4] for a4 in a3})",
+       "0:return a0"] ∧
+    CBV.Gen.c15SrcGridInit =
+      ["def __init__(self, a0, a1)",
+       "0:self.points = a0",
+       "0:self.junctions = [Junction(self.points, a2) for a2 in range(len(self.points))]",
+       "0:self.cells = [self.cell_class(self.points, a3) for a3 in a1]",
+       "0:self._bind_cell_neighbours()",
+       "0:self._bind_junction_cells()",
+       "0:self._bind_junction_neighbours()"] ∧
+    CBV.Gen.c15SrcBindCells =
+      ["def _bind_cell_neighbours(self)",
+       "0:for a0 in self.cells",
+       "1:for a1 in self.cells",
+       "2:a0.add_neighbour(a1)"] ∧
+    CBV.Gen.c15SrcBindJunctionCells =
+      ["def _bind_junction_cells(self)",
+       "0:for a0 in self.cells",
+       "1:for a1 in self.junctions",
+       "2:a1.add_cell(a0)"] ∧
+    CBV.Gen.c15SrcBindJunctions =
+      ["def _bind_junction_neighbours(self)",
+       "0:for a0 in self.junctions",
+       "1:for a1 in self.junctions",
+       "2:a0.add_neighbour(a1)"] := by
+  decide
+
+/-- The literal index tables in the class bodies (`side_indexes`, `edge_pairs`, `side_names`; `HexCell.edge_pairs` is
+    the name `constants.EDGE_PAIRS`) are the tables the model works with, one neighbour slot per side name;
+    `CellConnection` has the two fields the model's `connected` uses; `constants.TOL` is the float nearest to
+    `1 / c15TolDen`, whose square is the model's exact matching radius `tol2`. -/
+theorem T_C15_source_tables :
+    CBV.Gen.c15QuadSideIdxLit = quadKind.sideIdx ∧ CBV.Gen.c15QuadEdgePairsLit = quadKind.edgePairs ∧
+    CBV.Gen.c15HexSideIdxLit = hexKind.sideIdx ∧ CBV.Gen.c15HexEdgePairsIsConst = true ∧
+    CBV.Gen.c15HexEdgePairsConst = hexKind.edgePairs ∧
+    CBV.Gen.c15QuadSideNamesLit = CBV.Gen.quadSideNames ∧ CBV.Gen.c15HexSideNamesLit = CBV.Gen.hexSideNames ∧
+    quadKind.sideIdx.length = CBV.Gen.quadSideNames.length ∧ hexKind.sideIdx.length = CBV.Gen.hexSideNames.length ∧
+    CBV.Gen.c15SrcConnectionFields.map (·.1) = ["corners", "indexes"] ∧
+    CBV.Gen.c15TolIsInvDen = true ∧
+    tol2 * (CBV.Gen.c15TolDen : Rat) * (CBV.Gen.c15TolDen : Rat) = 1 ∧ 0 < CBV.Gen.c15TolDen := by
+  refine ⟨by decide, by decide, by decide, by decide, by decide, by decide, by decide, by decide, by decide,
+    by decide, by decide, ?_, by decide⟩
+  unfold tol2 CBV.Gen.c15TolDen
+  norm_num
 
 end CBV.C15
